@@ -178,10 +178,157 @@ def apply_model(F, c, a, where):
         return a[0]
     if re.search(r"cmp::PartialEq(<[^>]*>)?( for [^>]*)?>::(eq|ne)$", c) and len(a) == 2:
         return 1 if ((a[0] == a[1]) == (n == "eq")) else 0
+    r = _text_models(c, a, n, where)
+    if r is not _NOMODEL:
+        return r
     f = F.funcs.get(c)
     if f is not None and f.crate in ("ragc_core", "ragc_common", "ragc"):
         return StrInterp(F).call(f, a)
     raise Undecidable("no model for %s at %s" % (c, where))
+
+
+_NOMODEL = object()
+
+
+def _pat(x, where):
+    x = x[1] if isinstance(x, tuple) and x and x[0] == "char" else x
+    if isinstance(x, int):
+        x = chr(x)
+    if not isinstance(x, str) or x == "":
+        raise Undecidable("non-literal or empty pattern at %s" % where)
+    return x
+
+
+def decode_fmt_template(tpl, args, where):
+    """core::fmt::Arguments::new(template, args): 0 ends; 1..=127 a literal of that many bytes; 0x80 a literal with a
+    16-bit length; 0xC0 the next argument with default formatting.  Anything else (width, precision, positional
+    arguments) is not modelled."""
+    out, i, ai = [], 0, 0
+    tpl = list(tpl)
+    while i < len(tpl):
+        b = tpl[i]
+        i += 1
+        if b == 0:
+            break
+        if 1 <= b <= 0x7F:
+            out.append(bytes(tpl[i:i + b]).decode("utf-8", "replace"))
+            i += b
+        elif b == 0x80:
+            ln = tpl[i] | (tpl[i + 1] << 8)
+            i += 2
+            out.append(bytes(tpl[i:i + ln]).decode("utf-8", "replace"))
+            i += ln
+        elif b == 0xC0:
+            if ai >= len(args):
+                raise Undecidable("format template names more arguments than given at %s" % where)
+            v = args[ai]
+            ai += 1
+            if not (isinstance(v, tuple) and v and v[0] == "fmtarg"):
+                raise Undecidable("format argument that is not Display/Debug of a string or integer at %s" % where)
+            out.append(v[1])
+        else:
+            raise Undecidable("format placeholder with options (0x%02X) at %s" % (b, where))
+    return "".join(out)
+
+
+def _text_models(c, a, n, where):
+    if re.search(r"str::<impl str>::(split|rsplit)$", c) and isinstance(a[0], str):
+        parts = a[0].split(_pat(a[1], where))
+        return {"__strs": parts[::-1] if n == "rsplit" else parts, "pos": 0}
+    if re.search(r"str::<impl str>::(splitn|rsplitn)$", c) and isinstance(a[0], str) and isinstance(a[1], int):
+        if a[1] == 0:
+            return {"__strs": [], "pos": 0}
+        pat = _pat(a[2], where)
+        parts = a[0].split(pat, a[1] - 1) if n == "splitn" else a[0].rsplit(pat, a[1] - 1)[::-1]
+        return {"__strs": parts, "pos": 0}
+    if re.search(r"str::<impl str>::split_whitespace$", c) and isinstance(a[0], str):
+        return {"__strs": a[0].split(), "pos": 0}
+    if re.search(r"str::<impl str>::(split_once|rsplit_once)$", c) and isinstance(a[0], str):
+        pat = _pat(a[1], where)
+        if pat not in a[0]:
+            return NONE
+        x, y = a[0].split(pat, 1) if n == "split_once" else a[0].rsplit(pat, 1)
+        return some({0: x, 1: y})
+    if re.search(r"str::<impl str>::(find|rfind)$", c) and isinstance(a[0], str):
+        pat = _pat(a[1], where)
+        i = a[0].find(pat) if n == "find" else a[0].rfind(pat)
+        return some(len(a[0][:i].encode())) if i >= 0 else NONE
+    if re.search(r"str::<impl str>::matches$", c) and isinstance(a[0], str):
+        pat = _pat(a[1], where)
+        return {"__strs": [pat] * a[0].count(pat), "pos": 0}
+    if re.search(r"Iterator::collect$", c) and isinstance(a[0], dict) and "__strs" in a[0]:
+        return list(a[0]["__strs"][a[0]["pos"]:])
+    if re.search(r"Iterator::count$", c) and isinstance(a[0], dict) and "__strs" in a[0]:
+        return len(a[0]["__strs"]) - a[0]["pos"]
+    if re.search(r"Iterator>::next$|Iterator::next$|DoubleEndedIterator>::next_back$", c) and isinstance(a[0], dict) and "__strs" in a[0]:
+        it = a[0]
+        if n == "next_back":
+            if it["pos"] < len(it["__strs"]):
+                return some(it["__strs"].pop())
+            return NONE
+        if it["pos"] < len(it["__strs"]):
+            it["pos"] += 1
+            return some(it["__strs"][it["pos"] - 1])
+        return NONE
+    if re.search(r"Iterator::nth$", c) and isinstance(a[0], dict) and "__strs" in a[0] and isinstance(a[1], int):
+        it = a[0]
+        rest = it["__strs"][it["pos"]:]
+        if a[1] < len(rest):
+            it["pos"] += a[1] + 1
+            return some(rest[a[1]])
+        it["pos"] = len(it["__strs"])
+        return NONE
+    if re.search(r"Iterator::last$", c) and isinstance(a[0], dict) and "__strs" in a[0]:
+        rest = a[0]["__strs"][a[0]["pos"]:]
+        return some(rest[-1]) if rest else NONE
+    if re.search(r"Iterator::(skip|take)$", c) and isinstance(a[0], dict) and "__strs" in a[0] and isinstance(a[1], int):
+        rest = a[0]["__strs"][a[0]["pos"]:]
+        return {"__strs": rest[a[1]:] if n == "skip" else rest[:a[1]], "pos": 0}
+    if re.search(r"(Vec::<T(, A)?>|slice::<impl \[T\]>)::len$", c) and isinstance(a[0], list):
+        return len(a[0])
+    if re.search(r"(Vec::<T(, A)?>|slice::<impl \[T\]>)::is_empty$", c) and isinstance(a[0], list):
+        return 1 if not a[0] else 0
+    if re.search(r"(Vec::<T(, A)?>|slice::<impl \[T\]>)::(first|last)$", c) and isinstance(a[0], list):
+        return some(a[0][0 if n == "first" else -1]) if a[0] else NONE
+    if re.search(r"slice::<impl \[T\]>::get$", c) and isinstance(a[0], list) and isinstance(a[1], int):
+        return some(a[0][a[1]]) if 0 <= a[1] < len(a[0]) else NONE
+    if re.search(r"Index<I>>::index$|Index<I> for [^>]*>::index$", c) and isinstance(a[0], (list, str)):
+        v, r = a[0], a[1]
+        if isinstance(v, str):
+            v = v.encode()
+        if isinstance(r, int):
+            if isinstance(a[0], str):
+                raise Undecidable("integer index into a string at %s" % where)
+            if not 0 <= r < len(v):
+                raise Panic("index out of bounds at %s" % where)
+            return v[r]
+        if isinstance(r, dict):
+            lo, hi = r.get("start", 0), r.get("end", len(v))
+            if r.get("__adt", "").endswith("RangeInclusive") or r.get("__adt", "").endswith("RangeToInclusive"):
+                raise Undecidable("inclusive range at %s" % where)
+            if not (isinstance(lo, int) and isinstance(hi, int)):
+                raise Undecidable("symbolic range at %s" % where)
+            if not 0 <= lo <= hi <= len(v):
+                raise Panic("range out of bounds at %s" % where)
+            return v[lo:hi].decode("utf-8", "replace") if isinstance(a[0], str) else list(v[lo:hi])
+    if re.search(r"slice::<impl \[T\]>::(join|concat)$", c) and isinstance(a[0], list) and all(isinstance(x, str) for x in a[0]):
+        return (a[1] if n == "join" else "").join(a[0])
+    if re.search(r"fmt::rt::Argument::<'_>::new_(display|debug)$", c):
+        v = a[0]
+        if isinstance(v, str):
+            return ("fmtarg", v if n == "new_display" else '"%s"' % v)
+        if isinstance(v, int) and not isinstance(v, bool):
+            return ("fmtarg", str(v))
+        raise Undecidable("format argument of an unmodelled type at %s" % where)
+    if re.search(r"fmt::Arguments::<'\w+>::new$", c) and isinstance(a[0], list) and isinstance(a[1], list):
+        return decode_fmt_template(a[0], a[1], where)
+    if re.search(r"fmt::Arguments::<'\w+>::from_str$", c) and isinstance(a[0], str):
+        return a[0]
+    if re.search(r"alloc::fmt::format$|fmt::format::format_inner$|core::hint::must_use$", c):
+        return a[0]
+    if re.search(r"String::push_str$", c):
+        raise Undecidable("in-place string building at %s" % where)
+    return _NOMODEL
 
 
 def eval_tree(F, e, env):
